@@ -1,5 +1,7 @@
 import CacheVerif.Props.C11
 import CacheVerif.Proofs.Twin
+import CacheVerif.Proofs.DeepCache
+import CacheVerif.Proofs.DeepCacheOf
 /-!
 # C12 — Cache and CacheOf, Map and MapOf are observationally identical twins
 
@@ -22,6 +24,18 @@ theorem C12_cache_step (s : CSt K V) (op : Op K V) : CacheOf.step s op = Cache.s
 /-- every call sequence (including clock advances) -/
 theorem C12_cache_run (s : CSt K V) (ops : List (Op K V)) : CacheOf.run s ops = Cache.run s ops :=
   Proofs.Twin.run_eq s ops
+
+/-- **the two source files mean the same thing.**  The method bodies of `xsync_map.go` and `xsync_mapof.go`, as
+printed from the working tree (`tools/go2deep`) and run by the interpreter of the Go subset, give the same state,
+result, user-function invocations and evicted callbacks for every state and every call; and so for every call
+sequence.  (Each side equals its hand-written model by `deep_step`; the models are equal by `C12_cache_step`.) -/
+theorem C12_source_step (s : CSt K V) (op : Op K V) :
+    Deep.deepStep Deep.twinMapOf s op = Deep.deepStep Deep.twinMap s op := by
+  rw [DeepCache.deep_step, DeepCacheOf.deep_step, Proofs.Twin.step_eq]
+
+theorem C12_source_run (s : CSt K V) (ops : List (Op K V)) :
+    Deep.deepRun Deep.twinMapOf s ops = Deep.deepRun Deep.twinMap s ops := by
+  rw [DeepCache.deep_run, DeepCacheOf.deep_run, Proofs.Twin.run_eq]
 
 /-- every constructor variant (`New`/`NewOf` with any options, `NewDefault`/`NewOfDefault`): equal initial
 state and equal decision whether a janitor is started -/
